@@ -14,7 +14,7 @@ EXTRA_MODULES = ['PyhmsVerif.Props.EngineDE']
 LEVEL = 'proof'
 LEVEL_TEXT = 'Theorems: closed formula of the hibernation pass; after a round every active non-leaf deme that existed before it hibernates iff the round took no seed from it, demes created by the round are untouched (awake); with hibernation disabled no deme ever hibernates in any reachable state; a generation changes only the deme that runs and no hibernation flag; only active, awake demes are scheduled; when every active deme hibernates the schedule is empty (mechanism of D13). Tie: trace refinement (flags in every dump; schedule computed by the model) + monitors (flags vs rounds, frozen demes, progress). NEW (run level): C18_sleeping_frozen — through a whole run_metaepoch (any accepted generation / local-search events) every deme that was hibernating (or inactive) when the step began is unchanged: same history, same evaluation counter, same flags; C18_flags_only_in_rounds — only sprouting rounds touch hibernation flags. C18_only_awake_run — in every reachable state with hibernation enabled a generation is only accepted from a deme that is active and not hibernating (inductive invariant QueueAwake: every deme still scheduled in the metaepoch in progress is awake): a hibernating deme performs no objective evaluations. Mechanism of known finding D19 proved: EngineDE.deGen_collapsed — a DE population collapsed to one point of the box makes no objective call and reproduces itself, whatever the draws (Model/Engine.lean, tied bit-exactly to DE.run by the engine-level differential in the C11 / C12 checks).'
 LEVEL_NOTE = 'Trusted: Lean kernel + standard axioms; the hand-written tree model is tied to the code by trace refinement on sampled runs; numerical engines, objective values and user-defined stop-condition verdicts are environment; monitors trusted as failing-input search. The never-stalls clause is false of model and code in the reachable state where every active deme hibernates (known finding D13: C18_stall_schedule shows the schedule is then empty); a stall is accepted as D13 only when the model reproduces the whole run (the deme really had no admissible sprout), any other stall is a violation. Progress of an awake engine (EngineProgress: every generation evaluates at least one point) is an assumption about the engines, monitored. EngineProgress fails for a DE / SHADE deme whose population has collapsed to one point (known finding D19: unchanged trial vectors are not re-evaluated): a metaepoch in which every awake active deme is such a deme performs 0 evaluations; it is reported under its own signature and only when every awake active deme is a collapsed DE/SHADE deme.'
-TECHNIQUE = "trace refinement against the Lean tree model (Tree.step re-executes real runs) + direct monitors"
+TECHNIQUE = "Lean 4 theorems (inductive invariants of the tree machine Tree.step, proved for all configurations and event sequences) tied to the code by trace refinement (Tree.step re-executes real runs; engine generations replayed bit-exactly by the engine model) + direct monitors as failing-input search"
 RULE = "case = one traced run of a random configuration (1-3 levels, engine per level from the full list, every shipped GSC/LSC kind plus user-defined ones, both stock sprout mechanisms and user-composed chains, hibernation on/off, both directions, decimal boxes, optional cutoff/precision/stats wrappers, shared or per-level problems); non-trivial = run with >= 2 demes and >= 2 metaepochs; distinct by configuration hash"
 ASSUMPTIONS = ["objective is deterministic and never returns NaN", "runs are capped at 12 metaepochs by a user-level composite stop condition"]
 FORCE = {'hibernation': True}
